@@ -26,14 +26,14 @@ Inductive FileCanon : url -> Prop :=
 Lemma file_ser_ascii ho segs last q f : file_ok hp hd ho segs last q f ->
   ascii (file_ser hd ho (path_text segs last) q f).
 Proof.
-  intros K. destruct K as [Kh Ksegs Klast Kfirst Kq Kf Kb].
+  intros K. destruct K as [Kh Ksegs Klast Kfirst Kq Kf Kb1 Kbq Kbf].
   unfold file_ser, file_pre, file_front.
   apply ascii_app; split; [apply ascii_app; split; [apply ascii_app; split|]|].
   - apply Forall_forall. intros c Hc. unfold s_file_css, s_file, s_css in Hc. cbn [app In] in Hc. unfold is_ascii.
     repeat (destruct Hc as [<-|Hc]; [lia|]). destruct Hc.
   - destruct ho as [h|]; cbn [fhost_text]; [|constructor]. destruct Kh as (_ & _ & (Ha & _) & _). exact Ha.
   - unfold path_text. constructor; [unfold is_ascii; lia|]. apply ascii_app. split.
-    + clear Kfirst Kb. induction segs as [|s r IH]; [constructor|].
+    + clear Kfirst Kbq Kbf. induction segs as [|s r IH]; [constructor|].
       cbn [forallb] in Ksegs. apply andb_true_iff in Ksegs. destruct Ksegs as [Hs Hr].
       unfold segs_text. cbn [map concat]. fold (segs_text r). rewrite <- app_assoc. apply ascii_app. split.
       * destruct (good_seg_sp_parts s (fseg_ok_sp s Hs)) as (Hc & _). exact (clean_ascii T_PATH s Hc).
